@@ -25,8 +25,9 @@ theorem exec_seq (fuel a b env inp) :
   cases exec fuel a env inp with
   | error e => rfl
   | ok o =>
-    simp only [bind, Except.bind, seqPost]
-    split <;> rfl
+    rcases o with ⟨ev, en, ip, ctl⟩
+    cases ctl <;> simp only [bind, Except.bind, seqPost]
+    cases exec fuel b en ip <;> rfl
 theorem exec_assign (fuel x e env inp) :
     exec fuel (.assign x e) env inp = (do
       let v ← eval env e
@@ -82,7 +83,11 @@ theorem exec_call (fuel dst params args body env inp) :
     · rfl
     · cases exec fuel body { vars := bindParams params vs, priv := env.priv } inp with
       | error e => rfl
-      | ok o => simp only [callPost]; split <;> rfl
+      | ok o =>
+        rcases o with ⟨ev, en, ip, ctl⟩
+        cases ctl with
+        | ret v => cases v <;> rfl
+        | _ => rfl
 
 /-- symbolic execution of the generated terms: `sexec [defs of the functions to unfold, facts]` -/
 syntax "sexec" (" [" Lean.Parser.Tactic.simpLemma,* "]")? : tactic
